@@ -21,7 +21,46 @@ pub fn val(s: &str) -> Option<i64> {
 pub fn vals(ss: &[&str]) -> Option<Vec<i64>> {
   ss.iter().map(|s| val(s)).collect()
 }
+/// `I1>I7`: a bound whose answer changes between calls (first call I1, every later call I7). `bound` is the FIRST answer.
 pub fn bound(s: &str) -> Option<Bound<usize>> {
+  bounds(s).map(|v| v[0])
+}
+pub fn bounds(s: &str) -> Option<Vec<Bound<usize>>> {
+  let v: Option<Vec<Bound<usize>>> = s.split('>').map(bound1).collect();
+  v.filter(|v| !v.is_empty() && v.len() <= 4)
+}
+/// a `RangeBounds` implementation in safe code whose answers may be inconsistent from one call to the next
+/// (no heap storage: it is dropped inside the operation, where every allocator event is attributed to the vector)
+pub struct ScriptRange {
+  a: [Bound<usize>; 4],
+  b: [Bound<usize>; 4],
+  na: usize,
+  nb: usize,
+  ia: core::cell::Cell<usize>,
+  ib: core::cell::Cell<usize>,
+}
+impl ScriptRange {
+  pub fn parse(a: &str, b: &str) -> Option<Self> {
+    let (va, vb) = (bounds(a)?, bounds(b)?);
+    let mut r = ScriptRange { a: [Bound::Unbounded; 4], b: [Bound::Unbounded; 4], na: va.len(), nb: vb.len(), ia: Default::default(), ib: Default::default() };
+    r.a[..va.len()].copy_from_slice(&va);
+    r.b[..vb.len()].copy_from_slice(&vb);
+    Some(r)
+  }
+}
+impl core::ops::RangeBounds<usize> for ScriptRange {
+  fn start_bound(&self) -> Bound<&usize> {
+    let i = self.ia.get();
+    self.ia.set(i + 1);
+    self.a[i.min(self.na - 1)].as_ref()
+  }
+  fn end_bound(&self) -> Bound<&usize> {
+    let i = self.ib.get();
+    self.ib.set(i + 1);
+    self.b[i.min(self.nb - 1)].as_ref()
+  }
+}
+fn bound1(s: &str) -> Option<Bound<usize>> {
   match s.as_bytes().first()? {
     b'U' if s.len() == 1 => Some(Bound::Unbounded),
     b'I' => num(&s[1..]).map(Bound::Included),
